@@ -76,8 +76,7 @@ template <unsigned B> static void check(const Array<E> &a, const M *m, unsigned 
     vf_assert(a.First() == a.Storage() && a.End() == a.First() + n && a.begin() == a.First() && a.end() == a.End(), B + 5);
     vf_assert(a.Last() == (n != 0 ? a.Storage() + (n - 1) : nullptr), B + 6);
     unsigned i = vf_u32();
-    vf_assume(i < n);
-    vf_assert(same(a.First()[i], m[i]), B + 7);
+    if (i < n) vf_assert(same(a.First()[i], m[i]), B + 7);
     if (a.Capacity() > a.Size()) {   // the storage really has Capacity() slots: touch the last byte of the last unused one
         ((unsigned char *)a.Storage())[a.Capacity() * sizeof(E) - 1] = 0;
     }
